@@ -208,7 +208,9 @@ func c06WallClock() Harness {
 				dumps = append(dumps, dumpRealtime(r, rtDumpOpts{links: true}))
 			}
 		}
-		c.Input(hash64(desc), true, func() string { return desc + " parsed under the clocks real, 1970-01-02, around the first stop time, 2100-01-01" })
+		c.Input(hash64(desc), true, func() string {
+			return desc + " parsed under the clocks real, 1970-01-02, around the first stop time, 2100-01-01"
+		})
 		c.Steps(len(c06Clocks))
 		c.Outcome(dumps[0])
 		for i := 1; i < len(dumps); i++ {
@@ -385,7 +387,10 @@ func c06FeedsWith(startDate, idSuffix string) [][]byte {
 		mk(nyctTU("e1", "063000_M..S20R", "M", true, "M11N", "M12N"), nyctTU("e2", "064000_M..S20R", "M", false, "M16S")),
 		mk(nyctTU("e1", "070000_J..N20R", "J", false, "M11N"), &gtfsrt.FeedEntity{Id: sp("vp"), Vehicle: &gtfsrt.VehiclePosition{Vehicle: &gtfsrt.VehicleDescriptor{Id: sp("V1")}, Trip: &gtfsrt.TripDescriptor{TripId: sp("plain")}}}),
 		mk(merc, nyctTU("e1", "063000_M..S20R", "M", true, "M11N"), elevEntity(elevAlert{"A27", "N", "1"}, 0)),
-		mk(odd("o1", "071000_M..N20R", false), odd("o2", "071000_M..N20R", true), odd("o3", "072000_M..N20R", false), nyctTU("o4", "073000_M..S20R", "M", false)),
+		mk(odd("o1", "071000_M..N20R", false), odd("o2", "071000_M..N20R", true), odd("o3", "072000_M..N20R", false), nyctTU("o4", "073000_M..S20R", "M", false),
+			// NYCT descriptors on ids that are NOT of the NYCT form but share their first six characters with
+			// well-formed ids of the other feeds
+			nyctTU("o5", "063000_M.S20R", "M", true, "M11N"), nyctTU("o6", "070000_J..N20R-2", "J", false, "M12N")),
 	}
 }
 
@@ -446,7 +451,21 @@ func c06History(maxLen int) Harness {
 		sharedWasNil := shared.Extension == nil
 		tzBefore := shared.Timezone
 		var last *gtfs.Realtime
-		for _, f := range seq {
+		for i, f := range seq {
+			// between two calls the caller may assign another Timezone to the options value it reuses:
+			// the public fields at the time of the call are what counts
+			if i > 0 {
+				if c.Free(fmt.Sprintf("call[%d].caller_assigns_another_timezone", i), 2) == 1 {
+					if tzBefore == zoneLondon {
+						tzBefore = zoneNY
+					} else {
+						tzBefore = zoneLondon
+					}
+					shared.Timezone = tzBefore
+					desc += fmt.Sprintf(" [Timezone:=%v before call %d]", tzBefore, i)
+					c.Witness("caller_changed_timezone_between_calls")
+				}
+			}
 			in := append([]byte(nil), feeds[f]...)
 			r, err, ok := parseRT(c, in, shared)
 			if !ok {
@@ -468,14 +487,16 @@ func c06History(maxLen int) Harness {
 		if sharedWasNil && shared.Extension != nil {
 			c.Fail(cfg.family+"/caller-options-mutated", "%s: ParseRealtime wrote to the caller's options (Extension was nil, is now %T)", desc, shared.Extension)
 		}
-		fresh, err, ok := parseRT(c, append([]byte(nil), feeds[seq[n-1]]...), cfg.mk())
+		freshOpts := cfg.mk()
+		freshOpts.Timezone = tzBefore
+		fresh, err, ok := parseRT(c, append([]byte(nil), feeds[seq[n-1]]...), freshOpts)
 		if !ok || err != nil {
 			return
 		}
 		o := rtDumpOpts{links: true}
 		wd, gd := dumpRealtime(fresh, o), dumpRealtime(last, o)
 		c.Outcome(gd)
-		c.Relate("realtime-pure-function", cfg.name+"|"+string(feeds[seq[n-1]]), gd)
+		c.Relate("realtime-pure-function", cfg.name+fmt.Sprintf("|tz=%v|", tzBefore)+string(feeds[seq[n-1]]), gd)
 		if wd != gd {
 			c.Fail(cfg.family+"/history-dependent/"+classifyDiff(wd, gd), "%s: the last call's result differs from the same call on a fresh options/extension object\n%s", desc, diffLines(wd, gd))
 		}
@@ -638,7 +659,7 @@ func init() {
 	register(&Check{
 		ID:    "C06",
 		Level: "model_checking",
-		Rule: "(1) every combination of iteration starts at every library map range (choice points owned through the runtime overlay) for a static archive with 3 services/3 shapes/3 trips/3 sibling stops and a realtime message with 3 id-bearing vehicles, 3 trips and an alert with 3 fall-back routes; (2) all call sequences of <= 3 (thorough <= 5) over 7 feeds on ONE shared options/extension object for each of 30 configurations (nil Extension, explicit no-op, 4 nycttrips with and without Timezone, 24 nyctalerts), and all sequences of <= 3 static parses over 3 archives x inherit option; (3) relation (bytes, configuration) -> dump over every parse of the run, across worker processes; (4) all histories of <= 3 (thorough 4) calls over {static archive in New_York / Kolkata / an unknown zone, realtime feed under New_York / UTC / London / two fixed zones both named EST} each executed in its own pristine process and compared call by call with single-call pristine processes; " +
+		Rule: "(1) every combination of iteration starts at every library map range (choice points owned through the runtime overlay) for a static archive with 3 services/3 shapes/3 trips/3 sibling stops and a realtime message with 3 id-bearing vehicles, 3 trips and an alert with 3 fall-back routes; (2) all call sequences of <= 3 (thorough <= 5) over 7 feeds on ONE shared options/extension object - whose Timezone field the caller may reassign between calls - for each of 30 configurations (nil Extension, explicit no-op, 4 nycttrips with and without Timezone, 24 nyctalerts), and all sequences of <= 3 static parses over 3 archives x inherit option; (3) relation (bytes, configuration) -> dump over every parse of the run, across worker processes; (4) all histories of <= 3 (thorough 4) calls over {static archive in New_York / Kolkata / an unknown zone, realtime feed under New_York / UTC / London / two fixed zones both named EST} each executed in its own pristine process and compared call by call with single-call pristine processes; " +
 			"(5) the same archive / message x 30 configurations parsed under 6 wall clocks (real, 1970, around the first stop time of unassigned NYCT trips, 2100; headers with / without / zero timestamp): identical dumps; the map-order archive also with a 3-cycle, a 2-cycle and a self-parent among its stops; (6) rejected inputs (truncated, HTML, missing required field, stray bytes) with 0 / 1 / 64 bytes of spare capacity: buffer unchanged up to its capacity; " +
 			"non-trivial = distinct histories of >= 2 calls or inputs with a >= 3-entry library map; oracle = differential (rotated vs. fixed order, reused vs. fresh object) with content and order compared",
 		Assumptions: []string{"library maps are single-bucket (<= 8 entries) in these inputs, so rotations are all achievable orders; uncontrolled_maps counts any exception", "process-level state (package variables) is exercised by running histories in 16 separate worker processes that must all agree"},
